@@ -11,3 +11,4 @@ INVARIANT InvStatic
 INVARIANT InvContext
 INVARIANT InvBalance
 INVARIANT InvFailure
+PROPERTY TransientFresh
